@@ -960,7 +960,7 @@ func (w *wworld) settle(base int) {
 
 // waitPost waits for the goroutine finalize() starts after a committed push: publish, then snapshot update
 func (w *wworld) waitPost(col string, pubsBefore int, cmdBefore int) {
-	deadline := time.Now().Add(3 * time.Second)
+	deadline := time.Now().Add(10 * time.Second)
 	for time.Now().Before(deadline) {
 		if len(w.e.mq.Published()) > pubsBefore && w.e.fm.SawAfter(cmdBefore, "update", col) {
 			return
@@ -1564,7 +1564,9 @@ func (w *wworld) raw(x *wdt) {
 	resp := ex.resp.PushPullPacks[0]
 	isErr := resp.GetPushPullPackOption().HasErrorBit()
 	if !isErr && len(pack.Operations) > 0 {
-		deadline := time.Now().Add(300 * time.Millisecond)
+		// stored operations are followed by the handler's goroutine (publish, snapshot update): wait for it, however
+		// loaded the machine is; a request that stored nothing is followed by nothing
+		deadline := time.Now().Add(10 * time.Second)
 		for time.Now().Before(deadline) {
 			if len(w.e.mq.Published()) > pubsBefore && w.e.fm.SawAfter(cmdBefore, "update", col) {
 				break
